@@ -17,6 +17,8 @@ import (
 	"fmt"
 	"math"
 	"math/big"
+	"os"
+	"path/filepath"
 	"regexp"
 	"sort"
 	"strconv"
@@ -666,12 +668,30 @@ func runWR(c WRCase, o *vh.Obs) *vh.Failure {
 	if !sameStrings(libs, wantLibs) {
 		return vh.Failf("write-read/mtllib", "ReadMesh reports material files %v, want %v", libs, wantLibs)
 	}
+	return compareRead(got, want, text, false, o)
+}
+
+// compareRead is oracle R: the meshes the library read against what was written. byName matches
+// groups by their name instead of their position (SaveAll takes a map: the order is not defined).
+func compareRead(got []obj.ObjMesh, want []wantMesh, text string, byName bool, o *vh.Obs) *vh.Failure {
 	if len(got) != len(want) {
 		return vh.Failf("write-read/group-count", "%d meshes written, %d groups read\n%s", len(want), len(got), clip(text))
 	}
 	matSeen := false
 	for gi, w := range want {
 		g := got[gi]
+		if byName {
+			found := false
+			for _, cand := range got {
+				if cand.Name == w.name {
+					g, found = cand, true
+				}
+			}
+			if !found {
+				return vh.Failf("write-read/group-name", "no group named %q was read back\n%s", w.name, clip(text))
+			}
+			matSeen = true // with an undefined order any mesh may follow one that has materials
+		}
 		if g.Name != w.name {
 			return vh.Failf("write-read/group-name", "group %d read as %q, written as %q", gi, g.Name, w.name)
 		}
@@ -1388,6 +1408,102 @@ func runSweep(c SweepCase, o *vh.Obs) *vh.Failure {
 	return nil
 }
 
+// ---------------------------------------------------------------- through the file system (obj.Save / SaveAll / Load)
+
+// SLCase: the meshes of a write-read case saved to a path and loaded back. One mesh goes through
+// obj.Save (which writes no group name), several through obj.SaveAll (a map: order undefined).
+type SLCase struct {
+	W    WRCase
+	File string // base name of the .obj file
+}
+
+func genSL(t *rapid.T) SLCase {
+	return SLCase{W: genWR(t), File: rapid.SampledFrom([]string{"mesh.obj", "m.v2.obj", "UPPER.OBJ", "noext", "deep/er/model.obj", "x.obj"}).Draw(t, "file")}
+}
+
+var slFileRe = regexp.MustCompile(`^[A-Za-z0-9_./-]{1,40}$`)
+
+func runSL(c SLCase, o *vh.Obs) *vh.Failure {
+	if !inDomainWR(c.W) || !slFileRe.MatchString(c.File) || strings.Contains(c.File, "..") || strings.HasPrefix(c.File, "/") {
+		o.Count("out-of-domain", 1)
+		return nil
+	}
+	want := expectWR(c.W)
+	dir, err := os.MkdirTemp(filepath.Dir(os.Getenv("VERIF_OUT")), "c05sl")
+	if err != nil {
+		dir, err = os.MkdirTemp("", "c05sl")
+		if err != nil {
+			return vh.Failf("harness/tempdir", "%v", err)
+		}
+	}
+	defer os.RemoveAll(dir)
+	path := filepath.Join(dir, c.File)
+	anyMat := false
+	for _, w := range want {
+		if w.mat != nil {
+			anyMat = true
+		}
+	}
+	single := len(c.W.Meshes) == 1
+	var serr error
+	if kind, val := oracle.Try(func() {
+		if single {
+			serr = obj.Save(path, c.W.Meshes[0].M.Build())
+		} else {
+			ms := map[string]modeling.Mesh{}
+			for _, m := range c.W.Meshes {
+				ms[m.Name] = m.M.Build()
+			}
+			serr = obj.SaveAll(path, ms)
+		}
+	}); kind != "" {
+		return vh.Failf("save-load/save-panic-"+kind, "saving %d meshes to %q panicked: %v", len(want), c.File, val)
+	}
+	if serr != nil {
+		return vh.Failf("save-load/save-error", "saving %d meshes to %q failed: %v", len(want), c.File, serr)
+	}
+	if single {
+		o.Class("save-load/Save")
+		want[0].name = "" // Save writes the mesh without a group name
+	} else {
+		o.Class("save-load/SaveAll")
+	}
+	if anyMat {
+		o.Class("save-load/with-material-file")
+		o.NonTrivial()
+	}
+	text := ""
+	if b, err := os.ReadFile(path); err == nil {
+		text = string(b)
+	}
+	var got []obj.ObjMesh
+	var lerr error
+	if kind, val := oracle.Try(func() { got, lerr = obj.Load(path) }); kind != "" {
+		return vh.Failf("save-load/load-panic-"+kind, "loading what was just saved to %q panicked: %v\n%s", c.File, val, clip(text))
+	}
+	if lerr != nil {
+		return vh.Failf("save-load/load-error", "loading what was just saved to %q failed: %v\n%s", c.File, lerr, clip(text))
+	}
+	if f := compareRead(got, want, text, !single, o); f != nil {
+		f.Sig = "save-load/" + strings.TrimPrefix(f.Sig, "write-read/")
+		return f
+	}
+	// every range that names a material must carry the material loaded from the file, one object per name
+	byName := map[string]*modeling.Material{}
+	for _, g := range got {
+		for _, r := range g.Mesh.Materials() {
+			if r.Material == nil {
+				return vh.Failf("save-load/material-not-loaded", "a range of group %q has no material after Load although the saved text names one for every range\n%s", g.Name, clip(text))
+			}
+			if prev, ok := byName[r.Material.Name]; ok && prev != r.Material {
+				return vh.Failf("save-load/material-object-per-range", "material %q is two different objects after Load", r.Material.Name)
+			}
+			byName[r.Material.Name] = r.Material
+		}
+	}
+	return nil
+}
+
 func TestC05(t *testing.T) {
 	vh.Drive(t, vh.Spec[WRCase]{Name: "write-read", Quick: 80000, Thorough: 2400000, Gen: genWR, Run: runWR})
 	vh.Drive(t, vh.Spec[RWCase]{Name: "read-write", Quick: 100000, Thorough: 3000000, Gen: genRW, Run: runRW})
@@ -1396,6 +1512,7 @@ func TestC05(t *testing.T) {
 	// ~2.5 GB and ~10 s: a single case
 	vh.Enumerate(t, vh.Spec[HugeCase]{Name: "huge-mesh", Run: runHuge, Deadline: 10 * time.Minute}, hugeCases())
 	vh.Enumerate(t, vh.Spec[SweepCase]{Name: "count-sweep", Run: runSweep}, sweepCases())
+	vh.Drive(t, vh.Spec[SLCase]{Name: "save-load", Quick: 12000, Thorough: 300000, Gen: genSL, Run: runSL})
 }
 
 func FuzzC05ReadWrite(f *testing.F) {
